@@ -9,3 +9,5 @@ import (
 )
 
 func verifHook(ev string, cc *Consensus, st state.State, t LogOpType, pin *api.Pin) {}
+
+func verifGate(point string, cc *Consensus) {}
